@@ -26,7 +26,8 @@ CONSTANTS Keys, Native, MirrorDropsEmpty, AppVals,
           AllowWindow,    \* may the application commit between an EMPTY LS write transaction and the following env.Info()?
           StartStates,    \* subset of {"empty", "data", "ownsnap", "data+ownsnap"}
           OtherAtStart,   \* subset of BOOLEAN: may another instance's snapshot lie in the bucket when the instance starts
-          OnlyOnce        \* configuration only_once: the loop returns once every instance seen at start-up has been loaded
+          OnlyOnce,       \* configuration only_once: the loop returns once every instance seen at start-up has been loaded
+          MaxForce        \* how often the forced-snapshot interval may pass (0: storage_force_snapshot_interval disabled)
 
 VARIABLES
     main,      \* shadow mode: application DBI, [Keys -> -1 \cup Val]; -1 = no entry
@@ -52,13 +53,16 @@ VARIABLES
     otherOld,   \* [has, img]: the newest snapshot of another instance lying in the bucket (present at every start)
     otherDelivered, waitingOther,   \* as ownDelivered / waitingOwn, for that instance
     tListing, tStore, tPass,        \* status/starttracker: initial listing, initial store (or skipped), first complete pass
+    due,        \* the forced-snapshot interval has passed since lastSnapshotTime
+    odSeen,     \* snapshotOverdue as evaluated in this iteration (sync.go:276-289)
+    nForce,
     mergedN,    \* Syncer.lastByInstance: number of remote snapshots merged in this run (sync.go:561)
     committedN, \* cleaner.Worker.lastByInstance: what the cleaner was told is contained in an own stored snapshot (send.go:265)
     act
 vars == <<main, store, appDBI, shadowDBI, lastTxn, clock, bucket, ownOld, ownDelivered, avail, pc, lastSynced,
           hasDataAtStart, hasSnapshots, waitingOwn, cur, ret, appLast, uncaptured, unpub, sendCover,
           appSinceSend, sentSinceStart, infoAtCheck, nApp, nRemote, iter, nCrash, remoteSeen, mergedN, committedN,
-          otherOld, otherDelivered, waitingOther, tListing, tStore, tPass, act>>
+          otherOld, otherDelivered, waitingOther, tListing, tStore, tPass, due, odSeen, nForce, act>>
 
 (* versions a remote snapshot may carry for a key: older than every local stamp, or stamped "now"   *)
 (* (shadow mode: all instances share one monotone clock; native mode: application chosen, 50 is     *)
@@ -107,6 +111,7 @@ Init ==
       /\ otherOld = IF oth THEN [has |-> TRUE, img |-> OtherImg] ELSE [has |-> FALSE, img |-> EmptyStore]
       /\ otherDelivered = FALSE /\ waitingOther = FALSE
       /\ tListing = FALSE /\ tStore = FALSE /\ tPass = FALSE
+      /\ due = FALSE /\ odSeen = FALSE /\ nForce = 0
       /\ act = [name |-> "init", start |-> ss, other |-> oth]
 
 ---------------------------------------------------------------------------
@@ -138,6 +143,7 @@ NoRS == UNCHANGED remoteSeen
 NoMC == UNCHANGED <<mergedN, committedN>>
 NoEnv == UNCHANGED <<bucket, ownOld, ownDelivered, otherOld, otherDelivered, otherOld, otherDelivered, avail, nApp, nRemote, nCrash>>
 NoT == UNCHANGED <<tListing, tStore, tPass>>
+NoF == UNCHANGED <<due, odSeen, nForce>>
 AllLoaded == ~waitingOwn /\ ~waitingOther
 
 (* history bookkeeping of a capture *)
@@ -224,6 +230,7 @@ SendCommitted ==
     /\ pc = "send.stored"
     /\ pc' = "send.committed"
     /\ committedN' = mergedN /\ mergedN' = mergedN
+    /\ due' = FALSE /\ UNCHANGED <<odSeen, nForce>>        \* send.go:262-264: lastSnapshotTime = now
     /\ act' = [name |-> "run", to |-> "send.committed"]
     /\ NoLMDBChange /\ NoHist /\ NoEnv
     /\ UNCHANGED <<clock, lastSynced, hasDataAtStart, hasSnapshots, waitingOwn, waitingOther, cur, ret, iter>>
@@ -250,6 +257,7 @@ ToLoopTop ==
     /\ pc \in {"start.sent", "loop.sleep"}
     /\ (pc = "loop.sleep" => iter < MaxIter /\ ~(OnlyOnce /\ AllLoaded))
     /\ iter' = IF pc = "loop.sleep" THEN iter + 1 ELSE iter
+    /\ due' = (IF pc = "start.sent" THEN FALSE ELSE due) /\ UNCHANGED <<odSeen, nForce>>   \* sync.go:173: first not due to interval
     /\ pc' = "loop.top"
     /\ act' = [name |-> "run", to |-> "loop.top"]
     /\ NoLMDBChange /\ NoHist /\ NoEnv
@@ -288,6 +296,7 @@ LoadTxn ==   \* sync.go:362-518
 
 NoUpdate ==   \* inner loop ends; CleanDisappeared, overdue check -> check.before
     /\ pc = "loop.next" /\ ~cur.has
+    /\ odSeen' = (MaxForce > 0 /\ due) /\ UNCHANGED <<due, nForce>>
     /\ pc' = "check.before"
     /\ act' = [name |-> "run", to |-> "check.before"]
     /\ NoLMDBChange /\ NoHist /\ NoEnv
@@ -320,7 +329,8 @@ CheckRead ==   \* sync.go:286-289
     /\ UNCHANGED <<clock, lastSynced, hasDataAtStart, hasSnapshots, waitingOwn, waitingOther, cur, ret, iter,
                    appLast, uncaptured, unpub, sendCover, appSinceSend, sentSinceStart>>
 
-WillSend == infoAtCheck > lastSynced /\ ~waitingOwn     \* sync.go:294-314 (info > lastSynced >= 0 implies the inner guard)
+\* sync.go:294-314; the inner guard (hasDataAtStart || lastSyncedTxnID > 0) only matters for a forced snapshot of an empty LMDB
+WillSend == (infoAtCheck > lastSynced \/ odSeen) /\ ~waitingOwn /\ (hasDataAtStart \/ infoAtCheck > 0)
 
 Decide ==
     \/ /\ WillSend
@@ -332,11 +342,13 @@ Decide ==
        /\ NoLMDBChange /\ NoHist /\ NoEnv
        /\ UNCHANGED <<clock, lastSynced, hasDataAtStart, hasSnapshots, waitingOwn, waitingOther, cur, ret, iter>>
 
-Run == \/ (Boot \/ StartSendOrSkip \/ SendReturn \/ Decide) /\ NoMC
+Run == \/ (Boot \/ StartSendOrSkip \/ SendReturn \/ Decide) /\ NoMC /\ NoF
        \/ (StartCapture \/ SendInfo \/ (\E f \in 0..RetryCount : Store(f))
-           \/ ToLoopTop \/ Exit \/ NextUpdate \/ LoadTxn \/ NoUpdate
-           \/ LoadDone \/ CheckRead) /\ NoMC /\ NoT
-       \/ (SendCommitted \/ LoadInfo) /\ NoT
+           \/ Exit \/ NextUpdate \/ LoadTxn
+           \/ LoadDone \/ CheckRead) /\ NoMC /\ NoT /\ NoF
+       \/ (ToLoopTop \/ NoUpdate) /\ NoMC /\ NoT
+       \/ SendCommitted /\ NoT
+       \/ LoadInfo /\ NoT /\ NoF
 
 ---------------------------------------------------------------------------
 (* Environment.                                                            *)
@@ -394,6 +406,13 @@ DeliverOther ==   \* the downloader finishes loading the other instance's snapsh
     /\ NoLMDBChange /\ NoHist
     /\ UNCHANGED <<clock, bucket, ownOld, ownDelivered, otherOld, pc, lastSynced, hasDataAtStart, hasSnapshots, waitingOwn, waitingOther, cur, ret, iter, nApp, nRemote, nCrash>>
 
+IntervalPasses ==   \* time: storage_force_snapshot_interval has passed since the last own snapshot
+    /\ Parked /\ nForce < MaxForce /\ ~due /\ pc \notin {"start.listed", "start.captured", "start.sent"}
+    /\ due' = TRUE /\ nForce' = nForce + 1 /\ odSeen' = odSeen
+    /\ act' = [name |-> "interval"]
+    /\ NoLMDBChange /\ NoHist /\ NoEnv
+    /\ UNCHANGED <<clock, pc, lastSynced, hasDataAtStart, hasSnapshots, waitingOwn, waitingOther, cur, ret, iter>>
+
 Crash(wipe) ==   \* stop at the yield point, restart the process (LMDB kept or emptied)
     /\ pc # "boot" /\ nCrash < MaxCrash
     /\ nCrash' = nCrash + 1
@@ -401,6 +420,7 @@ Crash(wipe) ==   \* stop at the yield point, restart the process (LMDB kept or e
     /\ hasDataAtStart' = FALSE /\ hasSnapshots' = FALSE /\ waitingOwn' = FALSE /\ waitingOther' = FALSE
     /\ ownDelivered' = FALSE /\ ownOld' = ownOld /\ otherDelivered' = FALSE /\ otherOld' = otherOld
     /\ tListing' = FALSE /\ tStore' = FALSE /\ tPass' = FALSE
+    /\ due' = FALSE /\ odSeen' = FALSE /\ nForce' = nForce
     /\ IF wipe
        THEN /\ main' = EmptyMain /\ store' = EmptyStore /\ appDBI' = FALSE /\ shadowDBI' = FALSE /\ lastTxn' = 0
             /\ appLast' = EmptyMain /\ uncaptured' = {} /\ unpub' = {}
@@ -411,9 +431,10 @@ Crash(wipe) ==   \* stop at the yield point, restart the process (LMDB kept or e
     /\ UNCHANGED <<clock, bucket, iter, nApp, nRemote>>
 
 RemoteImgs == [Keys -> RemoteVers \cup {Absent}]
-Env == \/ \E k \in Keys, v \in AppVals \cup {-1} : AppCommit(k, v) /\ NoRS /\ NoMC /\ NoT
-       \/ \E img \in RemoteImgs : Inject(Image(img)) /\ NoMC /\ NoT
-       \/ (DeliverOwn \/ DeliverOther) /\ NoRS /\ NoMC /\ NoT
+Env == \/ \E k \in Keys, v \in AppVals \cup {-1} : AppCommit(k, v) /\ NoRS /\ NoMC /\ NoT /\ NoF
+       \/ \E img \in RemoteImgs : Inject(Image(img)) /\ NoMC /\ NoT /\ NoF
+       \/ (DeliverOwn \/ DeliverOther) /\ NoRS /\ NoMC /\ NoT /\ NoF
+       \/ IntervalPasses /\ NoRS /\ NoMC /\ NoT
        \/ \E w \in BOOLEAN : Crash(w) /\ NoRS
 
 Next == (Run /\ NoRS) \/ Env
@@ -440,7 +461,11 @@ PublishedWhenIdle ==
 (* C10: the loop decides to upload only after an application commit since  *)
 (* the last upload, or for the first upload after start-up.                *)
 NoEchoUpload ==
-    [][(pc = "check.read" /\ pc' = "send.txnDone") => (appSinceSend \/ ~sentSinceStart)]_vars
+    [][(pc = "check.read" /\ pc' = "send.txnDone") => (appSinceSend \/ ~sentSinceStart \/ odSeen)]_vars
+(* C09/C10: a forced snapshot is taken in the iteration that finds the interval passed (unless the instance still *)
+(* waits for its own old snapshot or has nothing at all), and the interval restarts with it                       *)
+ForcedWhenDue ==
+    [][(pc = "check.read" /\ act'.name = "run" /\ odSeen /\ ~waitingOwn /\ (hasDataAtStart \/ infoAtCheck > 0)) => pc' = "send.txnDone"]_vars
 
 (* C05: nothing is stored before the own old snapshot has been merged.     *)
 NoUploadBeforeOwnMerged ==
